@@ -30,6 +30,10 @@ CHECKS = {
          "R2 fine model + equalities, averaged prices / limits as documented; no holding costs with coarse frequency; uniform steps in merged groups", "bounded exhaustive scenario enumeration against a reference model", "2 C13"),
  "C03": ("E3 full product of tiny OptimProblems (2 variables, <= 2 rows, every pair of row types, boolean flag sets incl. non-0/1 bounds, 4 mapping variants) x every available solver choice x the history [soft solve, normal solve], against the exact rational optimum (vertex enumeration); plus assembled portfolio problems (LP/MIP, mono/split) x solvers against HiGHS on the raw arrays",
          "R5 exact oracle; booleans are {0,1} as in the cvxpy interface; SCS/OSQP tolerance 2e-3; ortools interface not installed", "full product enumeration of problems x solvers against an exact oracle", "2 C03"),
+ "C12": ("E1 portfolios generated three times from the same choice vector with rates and durations expressed in h, d and min; value equality for every pair of units and dispatch equality through the plug-in oracle; grids with unequal steps (DST days, months, autumn hours): must-run volumes = rate x real elapsed time, Timegrid.dt = R1, value = R2",
+         "generator converts rates and durations; R1 elapsed time from UTC instants", "bounded exhaustive scenario enumeration + metamorphic oracle over all unit pairs", "2 C12"),
+ "C15": ("E3 product of 3-step histories [set-up+optimise, rebuild with fixed window, re-optimise]: 8 portfolios (incl. several rows per variable, MIP, order book, coarse / periodic, structured) x all 16 index masks (array / list) + 8 date positions (datetime / date) x new prices x grid passed / set previously; exact bound equality, re-solve equality, value equality with unchanged prices",
+         "a variable belongs to the window if one of its rows does; the step at the date itself is left open", "full product enumeration of windows x portfolios over 3-step histories", "2 C15"),
 }
 
 def main():
